@@ -45,6 +45,8 @@ pub struct Rec<'s, 'a> {
     pub steps: Vec<StepRec>,
     /// callback index at which the state is rewritten (to the same zeros) and ModifiedSolution returned
     pub modify_at: Option<usize>,
+    /// answer of the initial callback: XOut(x) — interpolants on demand (dense output off)
+    pub xout_at0: Option<f64>,
 }
 impl<'s, 'a> SolOut for Rec<'s, 'a> {
     fn solout(&mut self, xold: f64, x: &mut f64, y: &mut [f64], ip: Option<&StepInterpolant<'_>>) -> ControlFlag {
@@ -63,6 +65,11 @@ impl<'s, 'a> SolOut for Rec<'s, 'a> {
                 *v = 0.0;
             }
             return ControlFlag::ModifiedSolution;
+        }
+        if idx == 0 {
+            if let Some(xo) = self.xout_at0 {
+                return ControlFlag::XOut(xo);
+            }
         }
         ControlFlag::Continue
     }
@@ -103,6 +110,13 @@ pub fn extract(m: Method, x0: f64, h: f64, step: usize, clip: Option<f64>, theta
 /// state (all zeros, as it was) and returns ModifiedSolution: the solver must then evaluate the derivative afresh at the
 /// start of the step — one extra call, answered with e_0 — and use THAT value as k1 of the step.
 pub fn extract_ex(m: Method, x0: f64, h: f64, step: usize, clip: Option<f64>, thetas: &[f64], modify: bool) -> Result<Tableau, String> {
+    extract_full(m, x0, h, step, clip, thetas, modify, false)
+}
+
+/// `on_demand`: dense output off; the initial callback answers XOut(middle of step `step`), so that (going forward) the
+/// steps before it need no interpolant and step `step` is the first one that must hand one over. Not for DOP853, whose
+/// number of evaluations per step depends on whether an interpolant is due.
+pub fn extract_full(m: Method, x0: f64, h: f64, step: usize, clip: Option<f64>, thetas: &[f64], modify: bool, on_demand: bool) -> Result<Tableau, String> {
     let (per, fsal) = calls_per_step(m);
     if per == 0 {
         return Err("not an explicit Runge-Kutta method".into());
@@ -124,8 +138,8 @@ pub fn extract_ex(m: Method, x0: f64, h: f64, step: usize, clip: Option<f64>, th
     let h_eff = clip.map(|c| c * h).unwrap_or(h);
     let xend = if clip.is_some() { x0 + h_eff } else { x0 + h * step as f64 };
     let y0 = vec![0.0; n];
-    let lo = LowOpts { first_step: Some(h), max_step: Some(h.abs()), dense: true, ..Default::default() };
-    let mut rec = Rec { f: &f, thetas: thetas.to_vec(), steps: Vec::new(), modify_at: if modify { Some(step - 1) } else { None } };
+    let lo = LowOpts { first_step: Some(h), max_step: Some(h.abs()), dense: !on_demand, ..Default::default() };
+    let mut rec = Rec { f: &f, thetas: thetas.to_vec(), steps: Vec::new(), modify_at: if modify { Some(step - 1) } else { None }, xout_at0: if on_demand { Some(x0 + h * (step - 1) as f64 + 0.5 * h_eff) } else { None } };
     let res = run_low(m, &f, x0, &y0, xend, &Tol::S(0.0), &Tol::S(1e300), &lo, &mut rec);
     if let Err(e) = res {
         return Err(format!("solver returned {}", e));
